@@ -100,6 +100,7 @@ arbitrary elvish values is property C09's model). -/
 inductive Val where
   | bool (b : Bool)
   | int (i : Int)
+  | flt (i : Int)         -- the inexact number i.0 (small integral floats: eq-distinct from `int i`, but compare equal)
   | str (s : Bytes)
   | list (l : List Val)
   | map (id : Nat)        -- maps are unordered: comparable only when equal (identity here)
@@ -120,6 +121,9 @@ mutual
 def cmp : Val → Val → Ordering4
   | .bool a, .bool b => if a == b then .equal else if a == false then .less else .more
   | .int a, .int b => if a < b then .less else if a > b then .more else .equal
+  | .int a, .flt b => if a < b then .less else if a > b then .more else .equal
+  | .flt a, .int b => if a < b then .less else if a > b then .more else .equal
+  | .flt a, .flt b => if a < b then .less else if a > b then .more else .equal
   | .str a, .str b => cmpBytes a b
   | .list a, .list b => cmpList a b
   | .map a, .map b => if a == b then .equal else .uncomparable
@@ -143,7 +147,7 @@ structure TypeRank where
   map : Nat
 
 def TypeRank.of (t : TypeRank) : Val → Nat
-  | .bool _ => t.bool | .int _ => t.num | .str _ => t.str | .list _ => t.list | .map _ => t.map
+  | .bool _ => t.bool | .int _ => t.num | .flt _ => t.num | .str _ => t.str | .list _ => t.list | .map _ => t.map
 
 mutual
 /-- `vals.CmpTotal` restricted to the universe. -/
@@ -153,6 +157,9 @@ def cmpTotal (t : TypeRank) : Val → Val → Ordering4
     else match a, b with
       | .bool a, .bool b => if a == b then .equal else if a == false then .less else .more
       | .int a, .int b => if a < b then .less else if a > b then .more else .equal
+      | .int a, .flt b => if a < b then .less else if a > b then .more else .equal
+      | .flt a, .int b => if a < b then .less else if a > b then .more else .equal
+      | .flt a, .flt b => if a < b then .less else if a > b then .more else .equal
       | .str a, .str b => cmpBytes a b
       | .list a, .list b => cmpTotalList t a b
       | _, _ => .equal
